@@ -66,7 +66,7 @@ def ser_call(c, endpoints, for_model, idx=None):
         return ["M", c[2]] if for_model else ["W", str(c[1])]
     if k == "Z":
         # interval signals on / off in the driver process; for the model: a call that changes nothing
-        return ["M", c[2]] if for_model else ["Z", b01(c[1])]
+        return ["M", c[2]] if for_model else ["Z", ("2" if c[1] == 2 else b01(c[1]))]
     if not for_model and idx is not None and idx % 3 == 1:
         # every third call that can: through the public stream adapters (ftp::istream_adapter over a std::istream holding
         # the whole source, ftp::ostream_adapter over a std::ostream) instead of the driver's own stream classes
@@ -99,7 +99,10 @@ def ser_call(c, endpoints, for_model, idx=None):
     if k == "S":
         verb = c[1]
         out = ["S", H(verb if for_model else verb)]
-        out += ["0"] if c[2] is None else ["1", H(c[2])]
+        arg = c[2]
+        if for_model and arg is not None and len(arg) > (1 << 20):
+            arg = arg[:1000]          # (megabyte arguments belong to calls outside the model: see skip_corr_from)
+        out += ["0"] if arg is None else ["1", H(arg)]
         return out
     if k == "T":
         return ["T", c[1]]
